@@ -1229,12 +1229,20 @@ func (sc *serverConn) handleFrame(strm *Stream, fr *FrameHeader) error {
 
 func (sc *serverConn) handleHeaderFrame(strm *Stream, fr *FrameHeader) error {
 	// A second header block on a stream whose request headers are already done
-	// is a trailer, which must carry both END_STREAM and END_HEADERS. Its
+	// is a trailer, which must carry END_STREAM. Its
 	// fields join the request headers, which is the nearest thing fasthttp's
 	// request has to a place for them.
 	// https://httpwg.org/specs/rfc7540.html#rfc.section.8.1
-	if strm.headersFinished && !fr.Flags().Has(FlagEndStream|FlagEndHeaders) {
-		return NewGoAwayError(ProtocolError, "stream not open")
+	if strm.headersFinished {
+		if !fr.Flags().Has(FlagEndStream) {
+			return NewGoAwayError(ProtocolError, "stream not open")
+		}
+
+		// Like any header block, a trailer may go on in CONTINUATION frames.
+		// Until END_HEADERS the stream is back to having a block in progress.
+		if !fr.Flags().Has(FlagEndHeaders) {
+			strm.headersFinished = false
+		}
 	}
 
 	if headerFrame, ok := fr.Body().(*Headers); ok && headerFrame.Stream() == strm.ID() {
